@@ -84,6 +84,10 @@ def run_history(case: dict[str, Any]) -> dict[str, Any]:
 
     var = case["variant"]
     hist = case["hist"]
+    if var.get("name_via") == "rename":
+        # the manager is first used under another name (one failed attempt, so that it has been waiting and listening under the old name), is
+        # stopped, and the application then assigns the device's current name: everything afterwards is judged under the new name
+        hist = [["world", "refuse"], ["start"], ["run", 0.5], ["stop"], ["world", "ok"], ["rename"]] + list(hist)
     out: dict[str, Any] = {}
     with Sim() as sim, mdns.MdnsPatch(sim) as world, clientlog.Recording(sim) as log:
         cfg = DeviceConfig(reply_delay=0.01, name="dev")
@@ -152,7 +156,7 @@ def run_history(case: dict[str, Any]) -> dict[str, Any]:
 
         name_via = var.get("name_via", "ctor")
         rl = ReconnectLogic(client=cli, on_connect=mk("on_connect"), on_disconnect=mk("on_disconnect"), on_connect_error=mk("on_connect_error"),
-                            name=None if var["addr"] == "local" or name_via == "attr" else "dev")
+                            name=None if var["addr"] == "local" or name_via == "attr" else "devold" if name_via == "rename" else "dev")
         if name_via == "attr" and var["addr"] != "local":
             # the application learns the device name after constructing the manager (an entry configured by IP address) and assigns it
             rl.name = "dev"
@@ -176,7 +180,9 @@ def run_history(case: dict[str, Any]) -> dict[str, Any]:
 
         for step in hist:
             op = step[0]
-            if op == "world":
+            if op == "rename":
+                rl.name = "dev"
+            elif op == "world":
                 apply_world(step[1])
             elif op == "start":
                 do_call("start", lambda: rl.start(), step[1] if len(step) > 1 else "done")
@@ -569,6 +575,7 @@ def judge(case: dict[str, Any], o: dict[str, Any]) -> tuple[list[tuple[str, str]
 # ---------------------------------------------------------------- generators
 VARIANTS = [{"addr": a, "noise": n, "zc": z, "slow_cb": sc} for a in ("ip", "local", "literal") for n in (False, True) for z in ("library", "supplied") for sc in (0.0, 0.0, 0.3)]
 VARIANTS += [{"addr": a, "noise": n, "zc": z, "slow_cb": 0.0, "name_via": "attr"} for a in ("ip", "literal") for n in (False, True) for z in ("library", "supplied")]
+VARIANTS += [{"addr": a, "noise": False, "zc": z, "slow_cb": 0.0, "name_via": "rename"} for a in ("ip", "literal") for z in ("library", "supplied")]
 VARIANTS += [{"addr": a, "noise": False, "zc": z, "slow_cb": 0.0, "cb_raises": cb} for a in ("ip", "local") for z in ("library", "supplied")
              for cb in ("on_connect",)]   # (a raising on_disconnect / on_connect_error hook ends the manager's retry loop on the pinned tree: the statement
 #                                          quantifies over outcomes, endings, mDNS events and start/stop calls, not over hooks that raise - observed, DESIGN §9, not judged)
@@ -667,6 +674,17 @@ def shard(ctx: Ctx) -> None:
         idx += 1
         if ctx.mine(idx):
             one(ctx, {"variant": v, "hist": [["world", w], ["start"], ["run", dur], ["world", "ok"], ["run", 70.0], ["dev", "eof"], ["run", 1.0]]}, "long-outage")
+    # a retry timer left armed by an earlier failure fires while the next failure's on_connect_error hook is still running (slow hook): the
+    # running attempt is past 'connecting', the stale timer must neither cancel it nor start another one
+    for addr in ("ip", "local"):
+        for zc in ("library", "supplied"):
+            for slow, t_mdns in ((0.3, 1.85), (1.5, 1.0), (1.5, 0.2), (3.0, 1.0)):
+                for w in ("refuse", "dns-fail", "garbage"):
+                    idx += 1
+                    if ctx.mine(idx):
+                        v = {"addr": addr, "noise": False, "zc": zc, "slow_cb": slow}
+                        one(ctx, {"variant": v, "hist": [["world", w], ["start"], ["run", t_mdns], ["mdns", "match-ptr"], ["run", 12.0], ["world", "ok"], ["run", 70.0]]},
+                            "stale-timer-during-slow-error-hook")
     maxlen = 4 if ctx.thorough else 3
     for ln in range(1, maxlen + 1):
         for combo in itertools.product(range(len(ALPHABET)), repeat=ln):
